@@ -3,152 +3,301 @@
 (* om repositories (om/hash.go, om/json.go, om/conv.go): optimistic,       *)
 (* versioned Save.  C40.                                                   *)
 (*                                                                         *)
-(* One stored document per key: [ver, f1, f2, f3] (ver = -1: no document). *)
-(* f1 stands for the fields that always have a value, f2 for the pointer   *)
-(* fields *string/*int64/*bool, f3 for pointers to structs (stored as JSON *)
-(* text, nil = "null"); f2 and f3 may be "nil" (a saver sets both or       *)
-(* neither).  Savers hold entities in memory,                              *)
+(* One stored document per key: [ver, f1, f2, f3, fexp, ttl] (ver = -1: no *)
+(* document).  f1 stands for the fields that always have a value, f2 for   *)
+(* the pointer fields *string/*int64/*bool, f3 for pointers to structs     *)
+(* (stored as JSON text, nil = "null"); f2 and f3 may be "nil" (a saver    *)
+(* sets both or neither).  fexp is the stored value of the field tagged    *)
+(* `redis:",exat"`, ttl the expiry of the key (both in clock ticks, NoExp  *)
+(* = the zero time / no expiry).  Savers hold entities in memory,          *)
 (* obtained by NewEntity (version 0) or Fetch (a copy of the stored        *)
-(* document), overwrite the fields with their own values and call Save.    *)
+(* document), overwrite the fields with their own values and call Save or  *)
+(* SaveMulti.                                                              *)
 (*                                                                         *)
 (* Save is ONE atomic action, the Lua script:                              *)
 (*   hashSaveScript:  v = HGET key ver                                     *)
 (*                    if (not v or v == ARGV[2]) then                      *)
 (*                      ARGV[2] = ARGV[2] + 1; HSET key <all pairs>;       *)
+(*                      if e then PEXPIREAT key e end                      *)
 (*                      return ARGV[2]  end;  return nil                   *)
 (*   jsonSaveScript:  v = JSON.GET key ver                                 *)
 (*                    if (not v or v == ARGV[2]) then                      *)
-(*                      JSON.SET key $ doc; return JSON.NUMINCRBY key ver 1*)
-(*                    end; return nil                                      *)
+(*                      JSON.SET key $ doc; v = JSON.NUMINCRBY key ver 1   *)
+(*                      if #ARGV == 4 then PEXPIREAT key ARGV[4] end       *)
+(*                      return v end; return nil                           *)
 (* followed by the Go side: nil reply -> ErrVersionMismatch, otherwise the *)
-(* entity's version field is set to the returned version.                  *)
+(* entity's version field is set to the returned version.  toExec passes   *)
+(* the expiry argument only when the exat field is not the zero time.      *)
+(* PEXPIREAT with a time that is not in the future deletes the key (the    *)
+(* script still returns the new version); without the argument the key     *)
+(* keeps the expiry it had (HSET and JSON.SET of the root keep the TTL).   *)
+(*                                                                         *)
+(* SaveMulti(e1..en) converts every entity with toExec and sends the n     *)
+(* script calls in one pipeline: the server executes them in order, each   *)
+(* atomically.  It is specified as the fold of the single Save over the    *)
+(* batch (BatchResult) - entities of a batch may address different keys,   *)
+(* the same key, differ in which pointer fields are set and in expiry.     *)
 (*                                                                         *)
 (* Modelled as it is: conv.go leaves nil pointer fields out of the HSET    *)
 (* arguments and HSET never removes a field, so a hash Save of a nil       *)
-(* pointer over a stored value keeps the old value (the JSON repository    *)
-(* replaces the whole document).  FetchEqualsSaved shows the consequence.  *)
+(* pointer over a stored value OF THE SAME KEY keeps the old value (the    *)
+(* JSON repository replaces the whole document).  FetchEqualsSaved shows   *)
+(* the consequence.                                                        *)
 (***************************************************************************)
 EXTENDS Integers, Sequences, FiniteSets, TLC, Json
 
 CONSTANTS
   Repo,       \* "hash" | "json"
   Savers,     \* saver names; a saver writes its own name as the value of f1 (and of f2, unless nil)
-  InitDocs,   \* the stored documents a behaviour may start from
+  Keys,       \* entity keys
+  InitDocs,   \* the stored documents (functions Keys -> document) a behaviour may start from
   MaxObtain,  \* NewEntity/Fetch calls per saver
-  MaxSaves,   \* Save calls per saver
+  MaxSaves,   \* Save calls per saver (an entry of a SaveMulti batch counts as one)
   MaxVer,     \* bound on versions
-  Defect,     \* "none" = the code as it is; negative configs: "inverted-compare", "no-increment", "drops-f1"
+  Exps,       \* what a saver may put into the exat field: subset of {"zero", "past", "now", "future"} (relative to the clock at that moment)
+  MaxNow,     \* the clock runs from 1 to MaxNow (1: time stands still)
+  MaxBatch,   \* longest SaveMulti batch (0: no SaveMulti)
+  Defect,     \* "none" = the code as it is; negative configs: "inverted-compare", "no-increment", "drops-f1",
+              \* "batch-shares-fieldmap", "exp-zero-sent", "exp-past-ignored"
   Emit, MaxOps
 
 ASSUME Repo \in {"hash", "json"}
+ASSUME Exps \subseteq {"zero", "past", "now", "future"}
 
 Nil == "nil"
-Absent == [ver |-> -1, f1 |-> "none", f2 |-> Nil, f3 |-> Nil]
-Base(f2v) == [ver |-> 1, f1 |-> "base", f2 |-> f2v, f3 |-> f2v]
-InitDocs3 == {Absent, Base("base"), Base(Nil)}
+NoExp == -1
+Horizon == 2   \* "future" = two ticks ahead
+Absent == [ver |-> -1, f1 |-> "none", f2 |-> Nil, f3 |-> Nil, fexp |-> NoExp, ttl |-> NoExp]
+Base(f2v) == [ver |-> 1, f1 |-> "base", f2 |-> f2v, f3 |-> f2v, fexp |-> NoExp, ttl |-> NoExp]
+InitDocs3 == [Keys -> {Absent, Base("base"), Base(Nil)}]
+AnyKey == CHOOSE k \in Keys : TRUE
+\* for the batch configurations: all keys fresh, or one of them holding a document
+InitDocsB == {[k \in Keys |-> Absent], [k \in Keys |-> IF k = AnyKey THEN Base("base") ELSE Absent]}
+InitDocs1 == {[k \in Keys |-> Absent], [k \in Keys |-> Base("base")]}
 
 VARIABLES
-  doc,    \* the stored document
-  ent,    \* saver -> entity in memory: [has, ver, f1, f2]
+  docs,   \* key -> the stored document
+  now,    \* the server's clock
+  ent,    \* saver -> entity in memory: [has, key, ver, f1, f2, f3, exp]
   obt,    \* saver -> number of NewEntity/Fetch calls
   sv,     \* saver -> number of Save calls
-  wins,   \* base version -> number of successful saves made from it (history)
+  wins,   \* key -> base version -> number of successful saves made from it since the key was (re-)created (history)
   last,   \* last step
   hist    \* emitted behaviour
 
-vars == <<doc, ent, obt, sv, wins, last, hist>>
+vars == <<docs, now, ent, obt, sv, wins, last, hist>>
 
-NoEnt == [has |-> FALSE, ver |-> 0, f1 |-> "none", f2 |-> Nil, f3 |-> Nil]
-NoStep == [op |-> "Init", s |-> "none", f1 |-> "none", f2 |-> Nil, ok |-> FALSE, base |-> 0, nf2 |-> FALSE]
+NoEnt == [has |-> FALSE, key |-> AnyKey, ver |-> 0, f1 |-> "none", f2 |-> Nil, f3 |-> Nil, exp |-> NoExp]
+NoStep == [op |-> "Init", s |-> "none", key |-> "none", f1 |-> "none", f2 |-> Nil, exp |-> NoExp, batch |-> <<>>]
 
-Snapshot == [op |-> last.op, s |-> last.s, f1 |-> last.f1, f2 |-> last.f2, ok |-> last.ok, base |-> last.base,
-             nf2 |-> last.nf2, ver |-> doc.ver, df1 |-> doc.f1, df2 |-> doc.f2, df3 |-> doc.f3]
+\* the entry of a batch whose outcome a Fetch of key k observes: the last successful one for that key (0: none)
+LastOk(b, k) == LET I == {i \in 1..Len(b) : b[i].ok /\ b[i].key = k}
+                IN IF I = {} THEN 0 ELSE CHOOSE i \in I : \A j \in I : j <= i
+
+Snapshot == [op |-> last.op, s |-> last.s, key |-> last.key, f1 |-> last.f1, f2 |-> last.f2, exp |-> last.exp,
+             batch |-> last.batch, seen |-> [k \in Keys |-> LastOk(last.batch, k)], now |-> now, docs |-> docs]
 Record == hist' = IF Emit THEN Append(hist, Snapshot') ELSE hist
-CanStep == ~Emit \/ Len(hist) < MaxOps + 1   \* hist[1] describes the initial document
+CanStep == ~Emit \/ Len(hist) < MaxOps + 1   \* hist[1] describes the initial documents
+
+NoWins == [v \in 0..MaxVer |-> 0]
 
 Init ==
-  /\ doc \in InitDocs
+  /\ docs \in InitDocs
+  /\ now = 1
   /\ ent = [s \in Savers |-> NoEnt]
   /\ obt = [s \in Savers |-> 0] /\ sv = [s \in Savers |-> 0]
-  /\ wins = [v \in 0..MaxVer |-> 0]
+  /\ wins = [k \in Keys |-> NoWins]
   /\ last = NoStep
   /\ hist = IF Emit THEN <<Snapshot>> ELSE <<>>
 
-\* repo.NewEntity(): version 0, the saver then fills in its values
-New(s, f2v) ==
+\* the time a saver writes into the exat field
+When(x) == CASE x = "zero" -> NoExp [] x = "past" -> now - 1 [] x = "now" -> now [] x = "future" -> now + Horizon
+
+\* repo.NewEntity(): version 0, the saver then sets the key and fills in its values
+New(s, k, f2v, x) ==
   /\ CanStep /\ obt[s] < MaxObtain
-  /\ ent' = [ent EXCEPT ![s] = [has |-> TRUE, ver |-> 0, f1 |-> s, f2 |-> f2v, f3 |-> f2v]]
+  /\ ent' = [ent EXCEPT ![s] = [has |-> TRUE, key |-> k, ver |-> 0, f1 |-> s, f2 |-> f2v, f3 |-> f2v, exp |-> When(x)]]
   /\ obt' = [obt EXCEPT ![s] = @ + 1]
-  /\ last' = [NoStep EXCEPT !.op = "New", !.s = s, !.f1 = s, !.f2 = f2v]
-  /\ UNCHANGED <<doc, sv, wins>>
+  /\ last' = [NoStep EXCEPT !.op = "New", !.s = s, !.key = k, !.f1 = s, !.f2 = f2v, !.exp = When(x)]
+  /\ UNCHANGED <<docs, now, sv, wins>>
   /\ Record
 
 \* repo.Fetch(): a copy of the stored document (round trip), then the saver overwrites the fields
-Fetch(s, f2v) ==
+Fetch(s, k, f2v, x) ==
   /\ CanStep /\ obt[s] < MaxObtain
-  /\ doc.ver >= 0
-  /\ ent' = [ent EXCEPT ![s] = [has |-> TRUE, ver |-> doc.ver, f1 |-> s, f2 |-> f2v, f3 |-> f2v]]
+  /\ docs[k].ver >= 0
+  /\ ent' = [ent EXCEPT ![s] = [has |-> TRUE, key |-> k, ver |-> docs[k].ver, f1 |-> s, f2 |-> f2v, f3 |-> f2v, exp |-> When(x)]]
   /\ obt' = [obt EXCEPT ![s] = @ + 1]
-  /\ last' = [NoStep EXCEPT !.op = "Fetch", !.s = s, !.f1 = s, !.f2 = f2v]
-  /\ UNCHANGED <<doc, sv, wins>>
+  /\ last' = [NoStep EXCEPT !.op = "Fetch", !.s = s, !.key = k, !.f1 = s, !.f2 = f2v, !.exp = When(x)]
+  /\ UNCHANGED <<docs, now, sv, wins>>
   /\ Record
 
+(***************************************************************************)
+(* One execution of the save script: stored document d, entity e, `sent` = *)
+(* the value of the pointer fields that reaches the script (e.f2 in the    *)
+(* code as it is).                                                         *)
+(***************************************************************************)
 \* `not v or v == ARGV[2]`
-Matches(e) ==
-  IF Defect = "inverted-compare" THEN doc.ver = -1 \/ doc.ver # e.ver
-  ELSE doc.ver = -1 \/ doc.ver = e.ver
+Matches(d, e) ==
+  IF Defect = "inverted-compare" THEN d.ver = -1 \/ d.ver # e.ver
+  ELSE d.ver = -1 \/ d.ver = e.ver
 
-StoredF2(e) ==
-  IF Repo = "hash" /\ e.f2 = Nil THEN doc.f2   \* the field is not among the HSET arguments: it stays what it was
-  ELSE e.f2
+\* the expiry argument: absent for the zero time
+ExpArg(e) == IF e.exp = NoExp THEN (IF Defect = "exp-zero-sent" THEN 0 ELSE NoExp) ELSE e.exp
 
-Save(s) ==
-  /\ CanStep /\ ent[s].has /\ sv[s] < MaxSaves /\ ent[s].ver < MaxVer
-  /\ sv' = [sv EXCEPT ![s] = @ + 1]
-  /\ LET e == ent[s]
-         nv == IF Defect = "no-increment" THEN e.ver ELSE e.ver + 1
-     IN IF Matches(e)
-        THEN /\ doc' = [ver |-> nv, f1 |-> IF Defect = "drops-f1" THEN doc.f1 ELSE e.f1, f2 |-> StoredF2(e), f3 |-> e.f3]
-             /\ ent' = [ent EXCEPT ![s].ver = nv]
-             /\ wins' = [wins EXCEPT ![e.ver] = @ + 1]
-             /\ last' = [NoStep EXCEPT !.op = "Save", !.s = s, !.ok = TRUE, !.base = e.ver,
-                                       !.nf2 = (Repo = "hash" /\ e.f2 = Nil /\ doc.f2 # Nil)]
-        ELSE /\ last' = [NoStep EXCEPT !.op = "Save", !.s = s, !.ok = FALSE, !.base = e.ver]
-             /\ UNCHANGED <<doc, ent, wins>>
-  /\ UNCHANGED obt
+Apply(d, e, sent) ==
+  LET nv == IF Defect = "no-increment" THEN e.ver ELSE e.ver + 1
+      arg == ExpArg(e)
+      written == [ver |-> nv,
+                  f1 |-> IF Defect = "drops-f1" THEN d.f1 ELSE e.f1,
+                  \* hash: a nil pointer is not among the HSET arguments, the field stays what it was
+                  f2 |-> IF Repo = "hash" /\ sent = Nil THEN d.f2 ELSE sent,
+                  f3 |-> e.f3,
+                  fexp |-> e.exp,
+                  ttl |-> IF arg = NoExp \/ (Defect = "exp-past-ignored" /\ arg <= now) THEN d.ttl ELSE arg]
+      gone == arg # NoExp /\ arg <= now /\ Defect # "exp-past-ignored"   \* PEXPIREAT not in the future: the key is deleted
+  IN IF Matches(d, e)
+     THEN [ok |-> TRUE, doc |-> IF gone THEN Absent ELSE written, nf2 |-> (Repo = "hash" /\ e.f2 = Nil /\ d.f2 # Nil)]
+     ELSE [ok |-> FALSE, doc |-> d, nf2 |-> FALSE]
+
+(***************************************************************************)
+(* A batch = the script executions of its entities, in order.  With the    *)
+(* defect "batch-shares-fieldmap" the hash repository converts all         *)
+(* entities into ONE field map: a nil pointer field inherits the value an  *)
+(* earlier entity of the batch left there.                                 *)
+(***************************************************************************)
+RECURSIVE Fold(_, _, _, _, _)
+Fold(ds, w, es, carry, acc) ==
+  IF es = <<>> THEN [docs |-> ds, wins |-> w, res |-> acc]
+  ELSE LET e == Head(es)
+           sent == IF Defect = "batch-shares-fieldmap" /\ Repo = "hash" /\ e.f2 = Nil THEN carry ELSE e.f2
+           r == Apply(ds[e.key], e, sent)
+           \* a key that is gone starts a new life: whoever comes first wins again
+           nw == IF r.doc.ver = -1 THEN [w EXCEPT ![e.key] = NoWins]
+                 ELSE IF r.ok THEN [w EXCEPT ![e.key][e.ver] = @ + 1] ELSE w
+       IN Fold([ds EXCEPT ![e.key] = r.doc], nw, Tail(es), IF e.f2 # Nil THEN e.f2 ELSE carry,
+               Append(acc, [s |-> e.s, key |-> e.key, ok |-> r.ok, base |-> e.ver, nf2 |-> r.nf2,
+                            live |-> (r.ok /\ r.doc.ver # -1)]))
+
+BatchResult(seq) ==
+  Fold(docs, wins, [i \in 1..Len(seq) |-> [s |-> seq[i], key |-> ent[seq[i]].key, ver |-> ent[seq[i]].ver, f1 |-> ent[seq[i]].f1,
+                                             f2 |-> ent[seq[i]].f2, f3 |-> ent[seq[i]].f3, exp |-> ent[seq[i]].exp]], Nil, <<>>)
+
+Range(f) == {f[i] : i \in DOMAIN f}
+OkSavers(res) == {res[i].s : i \in {j \in 1..Len(res) : res[j].ok}}
+
+SaveSeq(op, seq) ==
+  /\ CanStep
+  /\ \A i \in 1..Len(seq) : ent[seq[i]].has /\ sv[seq[i]] < MaxSaves /\ ent[seq[i]].ver < MaxVer
+  /\ sv' = [s \in Savers |-> IF s \in Range(seq) THEN sv[s] + 1 ELSE sv[s]]
+  /\ LET r == BatchResult(seq)
+     IN /\ docs' = r.docs
+        /\ ent' = [s \in Savers |-> IF s \in OkSavers(r.res)
+                                    THEN [ent[s] EXCEPT !.ver = IF Defect = "no-increment" THEN @ ELSE @ + 1] ELSE ent[s]]
+        /\ wins' = r.wins
+        /\ last' = [NoStep EXCEPT !.op = op, !.s = seq[1], !.key = ent[seq[1]].key, !.batch = r.res]
+  /\ UNCHANGED <<obt, now>>
   /\ Record
 
-Next == \E s \in Savers : Save(s) \/ \E f2v \in {s, Nil} : New(s, f2v) \/ Fetch(s, f2v)
+Save(s) == SaveSeq("Save", <<s>>)
+
+\* sequences of distinct savers, 1..MaxBatch long
+Batches == UNION {{q \in [1..n -> Savers] : \A i, j \in 1..n : i # j => q[i] # q[j]} : n \in 1..MaxBatch}
+SaveMulti(seq) == SaveSeq("SaveMulti", seq)
+
+\* the clock advances; keys whose expiry is reached disappear
+Tick ==
+  /\ CanStep /\ now < MaxNow
+  /\ now' = now + 1
+  /\ docs' = [k \in Keys |-> IF docs[k].ttl # NoExp /\ docs[k].ttl <= now + 1 THEN Absent ELSE docs[k]]
+  /\ wins' = [k \in Keys |-> IF docs'[k].ver = -1 THEN NoWins ELSE wins[k]]
+  /\ last' = [NoStep EXCEPT !.op = "Tick"]
+  /\ UNCHANGED <<ent, obt, sv>>
+  /\ Record
+
+Next ==
+  \/ \E s \in Savers : Save(s) \/ \E k \in Keys, f2v \in {s, Nil}, x \in Exps : New(s, k, f2v, x) \/ Fetch(s, k, f2v, x)
+  \/ \E q \in Batches : SaveMulti(q)
+  \/ Tick
 
 Spec == Init /\ [][Next]_vars
 
-MCView == <<doc, ent, obt, sv, wins>>
+MCView == <<docs, now, ent, obt, sv, wins>>
 
 (***************************************************************************)
-(* Properties                                                              *)
+(* Properties.  They speak about the entries of the last batch (a single   *)
+(* Save is a batch of one): b[i] = [s, key, ok, base, nf2, live].          *)
 (***************************************************************************)
-TypeOK == doc.ver \in -1..MaxVer /\ \A s \in Savers : ent[s].ver \in 0..MaxVer
+TypeOK == /\ \A k \in Keys : docs[k].ver \in -1..MaxVer
+          /\ \A s \in Savers : ent[s].ver \in 0..MaxVer
+          /\ now \in 1..MaxNow
 
-\* among the saves based on the same version at most one succeeds
-AtMostOneWinner == \A v \in 0..MaxVer : wins[v] <= 1
+\* among the saves based on the same version of the same incarnation of a key at most one succeeds
+AtMostOneWinner == \A k \in Keys, v \in 0..MaxVer : wins[k][v] <= 1
 
-Saved == last'.op = "Save" /\ last'.ok
-\* a successful Save advances the version by exactly one, in the store and in the caller's entity
+IsSave == last'.op \in {"Save", "SaveMulti"}
+\* the expiry of an entity has not passed when it is saved
+Lasting(e) == e.exp = NoExp \/ e.exp > now
+
+\* a successful Save advances the version by exactly one, in the caller's entity and (while the key lives) in the store
 VersionPlusOne ==
-  [][Saved => (doc'.ver = last'.base + 1 /\ ent'[last'.s].ver = last'.base + 1)]_vars
-\* ... and stores every field that has a value
+  [][IsSave => /\ \A i \in 1..Len(last'.batch) : last'.batch[i].ok => ent'[last'.batch[i].s].ver = last'.batch[i].base + 1
+               /\ \A k \in Keys : LET i == LastOk(last'.batch, k)
+                                  IN (i # 0 /\ docs'[k].ver # -1) => docs'[k].ver = last'.batch[i].base + 1]_vars
+\* a successful Save is fetchable afterwards unless its expiry has passed - and is gone if it has
+SavedIsFetchable ==
+  [][IsSave => \A k \in Keys : LET i == LastOk(last'.batch, k)
+                               IN i # 0 => (Lasting(ent[last'.batch[i].s]) <=> docs'[k].ver # -1)]_vars
+\* ... and stores every field that has a value, and the expiry
 AllFieldsStored ==
-  [][Saved => (doc'.f1 = ent[last'.s].f1 /\ doc'.f3 = ent[last'.s].f3 /\ (ent[last'.s].f2 # Nil => doc'.f2 = ent[last'.s].f2))]_vars
+  [][IsSave => \A k \in Keys : LET i == LastOk(last'.batch, k) IN (i # 0 /\ docs'[k].ver # -1) =>
+       LET e == ent[last'.batch[i].s]
+       IN /\ docs'[k].f1 = e.f1 /\ docs'[k].f3 = e.f3 /\ docs'[k].fexp = e.exp
+          /\ (e.f2 # Nil => docs'[k].f2 = e.f2)
+          /\ (e.exp # NoExp => docs'[k].ttl = e.exp)]_vars
 \* a Save answered ErrVersionMismatch changes nothing
 FailedSaveChangesNothing ==
-  [][(last'.op = "Save" /\ ~last'.ok) => (doc' = doc /\ ent' = ent)]_vars
+  [][IsSave => /\ \A i \in 1..Len(last'.batch) : ~last'.batch[i].ok => ent'[last'.batch[i].s] = ent[last'.batch[i].s]
+               /\ \A k \in Keys : LastOk(last'.batch, k) = 0 => docs'[k] = docs[k]]_vars
+AsEntity(d) == [ver |-> d.ver, f1 |-> d.f1, f2 |-> d.f2, f3 |-> d.f3, exp |-> d.fexp]
+OfEntity(e) == [ver |-> e.ver, f1 |-> e.f1, f2 |-> e.f2, f3 |-> e.f3, exp |-> e.exp]
 \* Fetch afterwards returns an entity equal to the saved one -- except, for the hash repository as it is,
-\* when a nil pointer was saved over a stored value (last'.nf2)
+\* when a nil pointer was saved over a stored value of the same key (nf2)
 FetchEqualsSavedButNil ==
-  [][(Saved /\ ~last'.nf2) => doc' = [ver |-> ent'[last'.s].ver, f1 |-> ent'[last'.s].f1, f2 |-> ent'[last'.s].f2, f3 |-> ent'[last'.s].f3]]_vars
+  [][IsSave => \A k \in Keys : LET i == LastOk(last'.batch, k) IN (i # 0 /\ docs'[k].ver # -1 /\ ~last'.batch[i].nf2) =>
+       AsEntity(docs'[k]) = OfEntity(ent'[last'.batch[i].s])]_vars
 \* the unconditional form: holds for the JSON repository, violated by the hash repository (known finding)
 FetchEqualsSaved ==
-  [][Saved => doc' = [ver |-> ent'[last'.s].ver, f1 |-> ent'[last'.s].f1, f2 |-> ent'[last'.s].f2, f3 |-> ent'[last'.s].f3]]_vars
+  [][IsSave => \A k \in Keys : LET i == LastOk(last'.batch, k) IN (i # 0 /\ docs'[k].ver # -1) =>
+       AsEntity(docs'[k]) = OfEntity(ent'[last'.batch[i].s])]_vars
+\* no document outlives its expiry
+ExpiryHonoured == \A k \in Keys : (docs[k].ver # -1 /\ docs[k].ttl # NoExp) => docs[k].ttl > now
 
 EmitCase == (Emit /\ Len(hist) = MaxOps + 1) => PrintT(<<"CASE", ToJson([repo |-> Repo, init |-> hist[1], steps |-> Tail(hist)])>>)
+
+(***************************************************************************)
+(* Filters for the generation configurations.  TLC evaluates invariants    *)
+(* also on successors an ACTION_CONSTRAINT discards, so the emitting       *)
+(* invariants repeat the filter on the recorded behaviour.                 *)
+(***************************************************************************)
+SaverOrd(s) == CASE s = "s1" -> 1 [] s = "s2" -> 2 [] s = "s3" -> 3 [] OTHER -> 4
+Obtaining(op) == op \in {"New", "Fetch"}
+\* savers obtain their entities in the order of their names (the order of obtaining is immaterial for a batch)
+ObtainInOrder == Obtaining(last'.op) => \A t \in Savers : SaverOrd(t) < SaverOrd(last'.s) => obt[t] > 0
+\* batch generation: everybody obtains first, then exactly one SaveMulti of at least two entities
+BatchShape == /\ ObtainInOrder
+              /\ last'.op \in {"New", "Fetch", "SaveMulti"}
+              /\ (last'.op = "SaveMulti" => (Len(last'.batch) >= 2 /\ \A t \in Savers : obt[t] > 0))
+BatchHist == LET n == Len(hist) IN
+  /\ hist[n].op = "SaveMulti" /\ Len(hist[n].batch) >= 2
+  /\ \A i \in 2..(n - 1) : Obtaining(hist[i].op) /\ (i > 2 => SaverOrd(hist[i - 1].s) < SaverOrd(hist[i].s))
+EmitBatchCase == (Emit /\ Len(hist) = MaxOps + 1 /\ BatchHist) =>
+  PrintT(<<"CASE", ToJson([repo |-> Repo, init |-> hist[1], steps |-> Tail(hist)])>>)
+\* expiry generation: pointer fields always set, no behaviour ends with an entity nobody saves
+ExpShape == Obtaining(last'.op) => last'.f2 # Nil
+ExpHist == LET n == Len(hist) IN
+  /\ ~Obtaining(hist[n].op)
+  /\ \A i \in 2..n : Obtaining(hist[i].op) => hist[i].f2 # Nil
+EmitExpCase == (Emit /\ Len(hist) = MaxOps + 1 /\ ExpHist) =>
+  PrintT(<<"CASE", ToJson([repo |-> Repo, init |-> hist[1], steps |-> Tail(hist)])>>)
 =============================================================================
